@@ -326,6 +326,11 @@ func vhC08Replay() {
 		} else if !cl.failFlush {
 			verifAssert(err == nil, "C08/Replay/nothing-to-replay-no-error")
 		}
+		if start >= 0 && start < len(alpha)-1 {
+			// the ID of a buffered event with later events behind it: "... then flushes",
+			// also when none of the later events matched the topics
+			verifAssert(cl.flushes >= 1, "C08/Replay/flushes-after-replaying-from-a-buffered-id")
+		}
 	}
 	if start == len(alpha)-1 && start >= 0 {
 		verifCover("C08/Replay/newest-id")
